@@ -686,6 +686,29 @@ def gen_crypto_framings(repo):
     m = re.search(r"enum AlgId\s*\{([^}]*)\}", en)
     out.append("Definition alg_id_variants : list string := [%s].\n" % (
         "; ".join(coq_str(v) for v in re.findall(r"([A-Z]\w*)\(", m.group(1))) if m else ""))
+    # apq.rs: what each seal/open entry point hands to the AEAD / HPKE context, and the Sender identity's fields
+    aq = drop_test_modules(strip_comments_only(gen.read(repo, CRYPTO_SRC + "apq.rs")))
+    rows = []
+    for (ctx_rx, fn) in ((r"impl<CS: CipherSuite> TopicKey<CS>\s*\{", "seal_message"), (r"impl<CS: CipherSuite> TopicKey<CS>\s*\{", "open_message"),
+                         (r"impl<CS: CipherSuite> ReceiverPublicKey<CS>\s*\{", "seal_topic_key"),
+                         (r"impl<CS: CipherSuite> ReceiverSecretKey<CS>\s*\{", "open_topic_key")):
+        b = fn_body_in(aq, ctx_rx, fn)
+        if b is None:
+            probs.append("apq.rs: %s not found" % fn)
+            continue
+        for m in re.finditer(r"\.\s*(seal|open|seal_in_place|open_in_place)\(", b):
+            e = balanced(b, m.end() - 1, "(", ")")
+            rows.append((fn, m.group(1), [norm_arg(a) for a in split_top(b[m.end():e - 1])]))
+        for m in re.finditer(r"TopicKey::from_seed\(", b):
+            e = balanced(b, m.end() - 1, "(", ")")
+            rows.append((fn, "from_seed", [norm_arg(a) for a in split_top(b[m.end():e - 1])]))
+    out.append("Definition apq_aead_calls : list (string * string * list string) := [\n%s].\n" % ";\n".join(
+        "  (%s, %s, [%s])" % (coq_str(f), coq_str(k), "; ".join(coq_str(a) for a in args)) for (f, k, args) in rows))
+    m = re.search(r"pub struct Sender<[^>]*>\s*\{([^}]*)\}", aq)
+    out.append("Definition apq_sender_fields : list string := [%s].\n" % (
+        "; ".join(coq_str(x) for x in re.findall(r"pub\s+(\w+)\s*:", m.group(1))) if m else ""))
+    if not m:
+        probs.append("apq.rs: struct Sender not found")
     # afc-util handler: role guards and the channel each entry point builds
     hs = strip_code(gen.read(repo, "crates/aranya-afc-util/src/handler.rs"))
     for fn in ("uni_channel_created", "uni_channel_received"):
